@@ -36,6 +36,12 @@ Definition call_feature_refused (callee : session) (opts : dict) : bool :=
   opt_bool opts "progress" &&
   negb (sess_feature callee "callee" f_prog_inv && sess_feature callee "callee" f_call_canceling).
 
+(** passthru mode used by a caller that did not announce it / towards a callee that did not *)
+Definition call_ppt_abort (caller : session) (opts : dict) : bool :=
+  ppt_active opts && negb (sess_feature caller "caller" f_ppt).
+Definition call_ppt_refused (callee : session) (opts : dict) : bool :=
+  ppt_active opts && negb (sess_feature callee "callee" f_ppt).
+
 Definition call_disclose_refused_cond (cfg : config) (r : registration) (opts : dict) : bool :=
   negb (reg_disclose r) && opt_bool opts "disclose_me" && negb (c_disclose cfg).
 
@@ -45,7 +51,8 @@ Definition timeout_forwarded (callee : session) (r : registration) : bool :=
 (** INVOCATION.Details of a first chunk *)
 Definition call_details (cfg : config) (caller callee : session) (r : registration)
            (opts : dict) (proc : string) : dict :=
-  let det0 := [("progress", VBool (opt_bool opts "progress"))] in
+  let det0 := if ppt_active opts then ppt_into opts [("progress", VBool (opt_bool opts "progress"))]
+              else [("progress", VBool (opt_bool opts "progress"))] in
   let det1 :=
     if reg_disclose r then disclose_dict "caller" (s_id caller) (s_details caller) det0
     else if opt_bool opts "disclose_me" && sess_feature callee "callee" f_caller_ident
@@ -173,6 +180,10 @@ Section Call.
       the_call =
       if call_feature_refused callee opts
       then CallRefused (call_d0 d r next) [(csid, RError c_CALL req [] e_feature_not_supported [] [])]
+      else if call_ppt_abort caller opts
+      then CallAbort [(csid, RAbort [("message", vstr "<text>")] e_protocol_violation)]
+      else if call_ppt_refused callee opts
+      then CallRefused (call_d0 d r next) [(csid, RError c_CALL req [] e_feature_not_supported [] [])]
       else if call_disclose_refused_cond cfg r opts
            then CallRefused (call_d0 d r next) [(csid, RError c_CALL req [] e_disclose_me [] [])]
            else CallInvoked (call_first_state now d cid opts r callee_id next callee)
@@ -183,10 +194,12 @@ Section Call.
     intros r callee_id next callee H E Ha Hb Hs Hl. unfold the_call, call. rewrite H.
     destruct (reg_callees r) eqn:Ec; [congruence|]. rewrite <- Ec.
     unfold call_abort_cond in Ha. rewrite Ha. fold csid. fold cid. rewrite Hb, Hs, Hl.
-    unfold call_feature_refused, call_disclose_refused_cond.
+    unfold call_feature_refused, call_disclose_refused_cond, call_ppt_abort, call_ppt_refused.
     destruct (opt_bool opts "progress" &&
               negb (sess_feature callee "callee" f_prog_inv && sess_feature callee "callee" f_call_canceling));
       [reflexivity|].
+    destruct (ppt_active opts && negb (sess_feature caller "caller" f_ppt)); [reflexivity|].
+    destruct (ppt_active opts && negb (sess_feature callee "callee" f_ppt)); [reflexivity|].
     destruct (negb (reg_disclose r) && opt_bool opts "disclose_me" && negb (c_disclose cfg)); [reflexivity|].
     unfold call_first_state, call_details, first_inv, local_timer, timeout_forwarded, call_d0, reg_set_next.
     destruct ((0 <? opt_int64 opts "timeout")%Z &&
@@ -237,17 +250,34 @@ Section Call.
       select_callee r oracle = Some (callee_id, next) -> lookup callee_id = Some callee ->
       call_feature_refused callee opts = true ->
       call_outcome (CallRefused (call_d0 d r next) [(csid, RError c_CALL req [] e_feature_not_supported [] [])])
+  | CO_ppt_abort r callee_id next callee :
+      match_procedure d proc oracle = Some r -> reg_callees r <> [] ->
+      call_abort_cond caller opts = false -> cget (d_bycall d) cid = None ->
+      select_callee r oracle = Some (callee_id, next) -> lookup callee_id = Some callee ->
+      call_feature_refused callee opts = false -> call_ppt_abort caller opts = true ->
+      call_outcome (CallAbort [(csid, RAbort [("message", vstr "<text>")] e_protocol_violation)])
+  | CO_ppt_refused r callee_id next callee :
+      match_procedure d proc oracle = Some r -> reg_callees r <> [] ->
+      call_abort_cond caller opts = false -> cget (d_bycall d) cid = None ->
+      select_callee r oracle = Some (callee_id, next) -> lookup callee_id = Some callee ->
+      call_feature_refused callee opts = false -> call_ppt_abort caller opts = false ->
+      call_ppt_refused callee opts = true ->
+      call_outcome (CallRefused (call_d0 d r next) [(csid, RError c_CALL req [] e_feature_not_supported [] [])])
   | CO_disclose r callee_id next callee :
       match_procedure d proc oracle = Some r -> reg_callees r <> [] ->
       call_abort_cond caller opts = false -> cget (d_bycall d) cid = None ->
       select_callee r oracle = Some (callee_id, next) -> lookup callee_id = Some callee ->
-      call_feature_refused callee opts = false -> call_disclose_refused_cond cfg r opts = true ->
+      call_feature_refused callee opts = false ->
+      call_ppt_abort caller opts = false -> call_ppt_refused callee opts = false ->
+      call_disclose_refused_cond cfg r opts = true ->
       call_outcome (CallRefused (call_d0 d r next) [(csid, RError c_CALL req [] e_disclose_me [] [])])
   | CO_first r callee_id next callee :
       match_procedure d proc oracle = Some r -> reg_callees r <> [] ->
       call_abort_cond caller opts = false -> cget (d_bycall d) cid = None ->
       select_callee r oracle = Some (callee_id, next) -> lookup callee_id = Some callee ->
-      call_feature_refused callee opts = false -> call_disclose_refused_cond cfg r opts = false ->
+      call_feature_refused callee opts = false ->
+      call_ppt_abort caller opts = false -> call_ppt_refused callee opts = false ->
+      call_disclose_refused_cond cfg r opts = false ->
       call_outcome (CallInvoked (call_first_state now d cid opts r callee_id next callee)
                                 (set_invgen callee (idgen_next (s_invgen callee)))
                                 [(callee_id, RInvocation (idgen_next (s_invgen callee)) (reg_id r)
@@ -275,6 +305,10 @@ Section Call.
       rewrite (call_first r callee_id next callee Hm Ec Ha Hb Hs Hl).
       destruct (call_feature_refused callee opts) eqn:Hf.
       { eapply CO_feature; eassumption. }
+      destruct (call_ppt_abort caller opts) eqn:Hpa.
+      { eapply CO_ppt_abort; eassumption. }
+      destruct (call_ppt_refused callee opts) eqn:Hpr.
+      { eapply CO_ppt_refused; eassumption. }
       destruct (call_disclose_refused_cond cfg r opts) eqn:Hd.
       { eapply CO_disclose; eassumption. }
       eapply CO_first; eassumption.
@@ -293,16 +327,101 @@ Proof.
   destruct (dget sd "authid"), (dget sd "authrole"); rewrite ?dget_dset, ?H1, ?H2, ?H3; reflexivity.
 Qed.
 
-Lemma dget_disclose_caller : forall sid sd b,
-    dget (disclose_dict "caller" sid sd [("progress", VBool b)]) "caller" = Some (vid sid) /\
-    dget (disclose_dict "caller" sid sd [("progress", VBool b)]) "caller_authid" = dget sd "authid" /\
-    dget (disclose_dict "caller" sid sd [("progress", VBool b)]) "caller_authrole" = dget sd "authrole".
+Lemma dget_disclose_caller : forall sid sd into,
+    dget into "caller_authid" = None -> dget into "caller_authrole" = None ->
+    dget (disclose_dict "caller" sid sd into) "caller" = Some (vid sid) /\
+    dget (disclose_dict "caller" sid sd into) "caller_authid" = dget sd "authid" /\
+    dget (disclose_dict "caller" sid sd into) "caller_authrole" = dget sd "authrole".
 Proof.
-  intros sid sd b. unfold disclose_dict.
+  intros sid sd into H1 H2. unfold disclose_dict.
   change (String.append "caller" "_authid") with "caller_authid".
   change (String.append "caller" "_authrole") with "caller_authrole".
-  destruct (dget sd "authid"), (dget sd "authrole"); rewrite ?dget_dset; repeat split; reflexivity.
+  destruct (dget sd "authid"), (dget sd "authrole"); rewrite ?dget_dset;
+    repeat match goal with
+           | |- context [String.eqb ?a ?b] =>
+               let v := eval vm_compute in (String.eqb a b) in
+               match v with
+               | true => change (String.eqb a b) with true
+               | false => change (String.eqb a b) with false
+               end
+           end; cbv iota; rewrite ?dget_dset;
+    repeat match goal with
+           | |- context [String.eqb ?a ?b] =>
+               let v := eval vm_compute in (String.eqb a b) in
+               match v with
+               | true => change (String.eqb a b) with true
+               | false => change (String.eqb a b) with false
+               end
+           end; cbv iota; repeat split; auto.
 Qed.
+
+(** ** Payload passthru keys *)
+Definition ppt_val (opts : dict) (k : string) : option value :=
+  match dget opts k with
+  | Some v => match as_string v with Some x => Some (vstr x) | None => None end
+  | None => None
+  end.
+
+Definition ppt_copy (opts : dict) (d : dict) (k : string) : dict :=
+  match dget opts k with
+  | Some v => match as_string v with Some x => dset d k (vstr x) | None => d end
+  | None => d
+  end.
+
+Lemma ppt_into_fold : forall opts d, ppt_into opts d = fold_left (ppt_copy opts) ppt_keys d.
+Proof. reflexivity. Qed.
+
+Lemma dget_ppt_copy : forall opts d a k,
+    dget (ppt_copy opts d a) k = if String.eqb k a then (match ppt_val opts a with Some v => Some v | None => dget d k end)
+                                 else dget d k.
+Proof.
+  intros opts d a k. unfold ppt_copy, ppt_val.
+  destruct (dget opts a) as [v|]; [destruct (as_string v)|]; rewrite ?dget_dset; destruct (String.eqb k a); reflexivity.
+Qed.
+
+Lemma dget_fold_ppt_other : forall opts l d k, ~ In k l -> dget (fold_left (ppt_copy opts) l d) k = dget d k.
+Proof.
+  intros opts. induction l as [|a l IH]; intros d k Hn; cbn [fold_left]; [reflexivity|].
+  rewrite IH by (intros H; apply Hn; right; exact H). rewrite dget_ppt_copy.
+  destruct (String.eqb_spec k a) as [->|]; [exfalso; apply Hn; left; reflexivity | reflexivity].
+Qed.
+
+Lemma dget_fold_ppt_key : forall opts l d k, NoDup l -> In k l ->
+    dget (fold_left (ppt_copy opts) l d) k = match ppt_val opts k with Some v => Some v | None => dget d k end.
+Proof.
+  intros opts. induction l as [|a l IH]; intros d k ND Hin; [destruct Hin|]. cbn [fold_left].
+  inversion ND as [|? ? Hni ND']; subst. destruct Hin as [->|Hin].
+  - rewrite dget_fold_ppt_other by exact Hni. rewrite dget_ppt_copy, String.eqb_refl. reflexivity.
+  - rewrite IH by assumption. rewrite dget_ppt_copy.
+    destruct (String.eqb_spec k a) as [->|]; [contradiction | reflexivity].
+Qed.
+
+Lemma ppt_keys_nodup : NoDup ppt_keys.
+Proof. unfold ppt_keys. repeat constructor; cbn; intuition discriminate. Qed.
+
+(** the details an INVOCATION starts from *)
+Definition ppt_det0 (opts : dict) : dict :=
+  if ppt_active opts then ppt_into opts [("progress", VBool (opt_bool opts "progress"))]
+  else [("progress", VBool (opt_bool opts "progress"))].
+
+Lemma dget_ppt_det0_other : forall opts k, ~ In k ppt_keys ->
+    dget (ppt_det0 opts) k = dget [("progress", VBool (opt_bool opts "progress"))] k.
+Proof.
+  intros opts k H. unfold ppt_det0. destruct (ppt_active opts); [|reflexivity].
+  rewrite ppt_into_fold. apply dget_fold_ppt_other. exact H.
+Qed.
+
+Lemma dget_ppt_det0_key : forall opts k, In k ppt_keys ->
+    dget (ppt_det0 opts) k = if ppt_active opts then ppt_val opts k else None.
+Proof.
+  intros opts k H. unfold ppt_det0. destruct (ppt_active opts).
+  - rewrite ppt_into_fold, dget_fold_ppt_key by (auto using ppt_keys_nodup).
+    destruct (ppt_val opts k); [reflexivity|].
+    unfold ppt_keys in H. cbn in H. destruct H as [<-|[<-|[<-|[<-|[]]]]]; reflexivity.
+  - unfold ppt_keys in H. cbn in H. destruct H as [<-|[<-|[<-|[<-|[]]]]]; reflexivity.
+Qed.
+
+Ltac not_ppt_key := unfold ppt_keys; cbn; intuition discriminate.
 
 (** the caller is disclosed to this callee *)
 Definition disclosed (callee : session) (r : registration) (opts : dict) : bool :=
@@ -321,8 +440,8 @@ Proof. intros [] d k v k'; rewrite ?dget_dset; destruct (String.eqb k' k); refle
 
 Definition details1 (caller callee : session) (r : registration) (opts : dict) : dict :=
   if disclosed callee r opts
-  then disclose_dict "caller" (s_id caller) (s_details caller) [("progress", VBool (opt_bool opts "progress"))]
-  else [("progress", VBool (opt_bool opts "progress"))].
+  then disclose_dict "caller" (s_id caller) (s_details caller) (ppt_det0 opts)
+  else ppt_det0 opts.
 
 Lemma call_details_layers : forall cfg caller callee r opts proc,
     call_details cfg caller callee r opts proc =
@@ -339,18 +458,28 @@ Lemma call_details_layers : forall cfg caller callee r opts proc,
            else dset (if wants_progress callee opts then dset (details1 caller callee r opts) "receive_progress" (VBool true)
                       else details1 caller callee r opts) "procedure" (vuri proc))).
 Proof.
-  intros. unfold call_details, details1, disclosed, wants_progress.
+  intros. unfold call_details, details1, disclosed, wants_progress. fold (ppt_det0 opts).
   destruct (reg_disclose r); [reflexivity|]. cbn [orb].
   destruct (opt_bool opts "disclose_me" && sess_feature callee "callee" f_caller_ident); reflexivity.
 Qed.
 
 Lemma details1_other : forall caller callee r opts k,
     k <> "caller" -> k <> "caller_authid" -> k <> "caller_authrole" ->
-    dget (details1 caller callee r opts) k = dget [("progress", VBool (opt_bool opts "progress"))] k.
+    dget (details1 caller callee r opts) k = dget (ppt_det0 opts) k.
 Proof.
   intros. unfold details1. destruct (disclosed callee r opts); [|reflexivity].
   apply dget_disclose_other; assumption.
 Qed.
+
+Ltac eqb_consts :=
+  repeat match goal with
+         | |- context [String.eqb ?a ?b] =>
+             let v := eval vm_compute in (String.eqb a b) in
+             match v with
+             | true => change (String.eqb a b) with true
+             | false => change (String.eqb a b) with false
+             end
+         end.
 
 Lemma call_details_spec : forall cfg caller callee r opts proc,
     let det := call_details cfg caller callee r opts proc in
@@ -364,25 +493,37 @@ Lemma call_details_spec : forall cfg caller callee r opts proc,
     dget det "caller_authrole" = (if disclosed callee r opts then dget (s_details caller) "authrole" else None).
 Proof.
   intros cfg caller callee r opts proc det. subst det. rewrite call_details_layers.
-  destruct (dget_disclose_caller (s_id caller) (s_details caller) (opt_bool opts "progress")) as (D1 & D2 & D3).
-  repeat split; rewrite dget_if_dset, dget_if_dset', dget_if_dset;
-    repeat match goal with
-           | |- context [String.eqb ?a ?b] =>
-               let v := eval vm_compute in (String.eqb a b) in
-               match v with
-               | true => change (String.eqb a b) with true
-               | false => change (String.eqb a b) with false
-               end
-           end; cbn [andb]; cbv iota.
-  - rewrite details1_other by discriminate. reflexivity.
-  - destruct (wants_progress callee opts); [reflexivity|]. rewrite details1_other by discriminate. reflexivity.
+  assert (P0 : forall k, ~ In k ppt_keys -> k <> "progress" -> dget (ppt_det0 opts) k = None).
+  { intros k H1 H2. rewrite dget_ppt_det0_other by exact H1. cbn.
+    unfold dget. cbn. destruct (String.eqb_spec k "progress"); [contradiction | reflexivity]. }
+  destruct (dget_disclose_caller (s_id caller) (s_details caller) (ppt_det0 opts)) as (D1 & D2 & D3);
+    [apply P0; [not_ppt_key | discriminate] | apply P0; [not_ppt_key | discriminate] |].
+  repeat split; rewrite dget_if_dset, dget_if_dset', dget_if_dset; eqb_consts; cbn [andb]; cbv iota.
+  - rewrite details1_other by discriminate. rewrite dget_ppt_det0_other by not_ppt_key. reflexivity.
+  - destruct (wants_progress callee opts); [reflexivity|]. rewrite details1_other by discriminate.
+    apply P0; [not_ppt_key | discriminate].
   - destruct (String.eqb (reg_match r) match_exact); cbn [negb]; [|reflexivity].
-    rewrite details1_other by discriminate. reflexivity.
+    rewrite details1_other by discriminate. apply P0; [not_ppt_key | discriminate].
   - destruct ((0 <? opt_int64 opts "timeout")%Z && timeout_forwarded callee r); [reflexivity|].
-    rewrite details1_other by discriminate. reflexivity.
-  - unfold details1. destruct (disclosed callee r opts); [exact D1 | reflexivity].
-  - unfold details1. destruct (disclosed callee r opts); [exact D2 | reflexivity].
-  - unfold details1. destruct (disclosed callee r opts); [exact D3 | reflexivity].
+    rewrite details1_other by discriminate. apply P0; [not_ppt_key | discriminate].
+  - unfold details1. destruct (disclosed callee r opts); [exact D1 | apply P0; [not_ppt_key | discriminate]].
+  - unfold details1. destruct (disclosed callee r opts); [exact D2 | apply P0; [not_ppt_key | discriminate]].
+  - unfold details1. destruct (disclosed callee r opts); [exact D3 | apply P0; [not_ppt_key | discriminate]].
+Qed.
+
+(** the passthru options are copied into the INVOCATION details iff passthru mode is used *)
+Lemma call_details_ppt : forall cfg caller callee r opts proc k,
+    In k ppt_keys ->
+    dget (call_details cfg caller callee r opts proc) k = if ppt_active opts then ppt_val opts k else None.
+Proof.
+  intros cfg caller callee r opts proc k Hk. rewrite call_details_layers.
+  rewrite <- (dget_ppt_det0_key opts k Hk).
+  assert (Hd : dget (details1 caller callee r opts) k = dget (ppt_det0 opts) k).
+  { apply details1_other; unfold ppt_keys in Hk; cbn in Hk;
+      destruct Hk as [<-|[<-|[<-|[<-|[]]]]]; discriminate. }
+  unfold ppt_keys in Hk. cbn in Hk.
+  destruct Hk as [<-|[<-|[<-|[<-|[]]]]];
+    rewrite dget_if_dset, dget_if_dset', dget_if_dset; eqb_consts; cbn [andb]; cbv iota; exact Hd.
 Qed.
 
 (** ** Projections of the two result states *)
@@ -479,6 +620,31 @@ Proof.
   - apply (cfs_pending now d (s_id caller, req)).
 Qed.
 
+(** payload passthru: the four ppt options are copied (as strings) into the
+    INVOCATION details iff the CALL uses passthru mode, and then both peers
+    announced the feature *)
+Theorem invocation_ppt_proof : forall cfg lookup now d caller req opts proc args kw oracle d' callee' o,
+    call cfg lookup now d caller req opts proc args kw oracle = CallInvoked d' callee' o ->
+    cget (d_bycall d) (s_id caller, req) = None ->
+    exists r callee_id callee,
+      match_procedure d proc oracle = Some r /\ lookup callee_id = Some callee /\
+      let det := call_details cfg caller callee r opts proc in
+      o = [(callee_id, RInvocation (idgen_next (s_invgen callee)) (reg_id r) det args kw)] /\
+      (forall k, In k ppt_keys -> dget det k = if ppt_active opts then ppt_val opts k else None) /\
+      (ppt_active opts = true ->
+       sess_feature caller "caller" f_ppt = true /\ sess_feature callee "callee" f_ppt = true).
+Proof.
+  intros cfg lookup now d caller req opts proc args kw oracle d' callee' o Hc Hb.
+  pose proof (call_cases cfg lookup now d caller req opts proc args kw oracle) as H.
+  rewrite Hc in H. inversion H; subst; try congruence.
+  exists r, callee_id, callee. repeat split; auto.
+  - intros k Hk. apply call_details_ppt. exact Hk.
+  - match goal with Hpa : call_ppt_abort _ _ = false |- _ => unfold call_ppt_abort in Hpa; rewrite H0 in Hpa end.
+    destruct (sess_feature caller "caller" f_ppt); [reflexivity | discriminate].
+  - match goal with Hpr : call_ppt_refused _ _ = false |- _ => unfold call_ppt_refused in Hpr; rewrite H0 in Hpr end.
+    destruct (sess_feature callee "callee" f_ppt); [reflexivity | discriminate].
+Qed.
+
 (** the id is new for that callee: above the generator, which bounds every
     invocation id the callee was sent (dealer_wf, [wf_inv]) *)
 Theorem inv_id_fresh_proof : forall lookup d callee_id callee,
@@ -570,15 +736,16 @@ Theorem call_disclose_refused_proof : forall cfg lookup now d caller req opts pr
     call_abort_cond caller opts = false -> cget (d_bycall d) (s_id caller, req) = None ->
     select_callee r oracle = Some (callee_id, next) -> lookup callee_id = Some callee ->
     call_feature_refused callee opts = false ->
+    call_ppt_abort caller opts = false -> call_ppt_refused callee opts = false ->
     opt_bool opts "disclose_me" = true -> reg_disclose r = false -> c_disclose cfg = false ->
     call cfg lookup now d caller req opts proc args kw oracle =
     CallRefused (call_d0 d r next) [(s_id caller, RError c_CALL req [] e_disclose_me [] [])] /\
     same_calls d (call_d0 d r next) /\ d_timers (call_d0 d r next) = d_timers d.
 Proof.
-  intros cfg lookup now d caller req opts proc args kw oracle r callee_id next callee Hm Hc Ha Hb Hs Hl Hf H1 H2 H3.
+  intros cfg lookup now d caller req opts proc args kw oracle r callee_id next callee Hm Hc Ha Hb Hs Hl Hf Hpa Hpr H1 H2 H3.
   split; [|split; [repeat split | reflexivity]].
   rewrite (call_first cfg lookup now d caller req opts proc args kw oracle r callee_id next callee Hm Hc Ha Hb Hs Hl).
-  rewrite Hf. unfold call_disclose_refused_cond. rewrite H1, H2, H3. reflexivity.
+  rewrite Hf, Hpa, Hpr. unfold call_disclose_refused_cond. rewrite H1, H2, H3. reflexivity.
 Qed.
 
 (** no INVOCATION is ever produced for a disallowed disclose_me *)
